@@ -1380,6 +1380,10 @@ theorem declare_spec [Inhabited V] (decl : List (Int × V)) :
       have := (get_iff_res _ (new_Inv (V := V) decl.length) k w).mp hg
       exact absurd this (mkTable_no_res _ 0 k w)
 
+/-- the regenerated tie: `syncFields`, `addField` and the GLOBALSTRUCT handler still have the shape
+    `TObj.sync` / `TObj.addField` model (goatx) -/
+theorem type_object_tie : Gen.typeRedeclarationMerges = true := by decide
+
 end Goat.Props.C12
 
 
@@ -1405,3 +1409,4 @@ end Goat.Props.C12
 #print axioms Goat.Props.C12.sync_keeps_dropped_field
 #print axioms Goat.Props.C12.sync_takes_new_value
 #print axioms Goat.Props.C12.declare_spec
+#print axioms Goat.Props.C12.type_object_tie
